@@ -58,7 +58,7 @@ impl ProgCase {
             withhold_imports: false,
             linked_promises: false,
             host_activity_pm: 0,
-            internal_sources: BTreeMap::new(),
+            internal_sources: BTreeMap::new(), stale_answer_ids: Vec::new(),
         }
     }
     /// Structural shrink candidates: delete one statement node, or unwrap one block.
